@@ -311,7 +311,7 @@ Definition AB_DEVICE : Z := 0x08000020.
 
 Record pmap := mkPm {
   p_cfg : cfg;
-  p_offs : list (option Z);      (* PdoVariable.offset of each mapped variable (None for _fill_map dummies) *)
+  p_offs : list (option Z);      (* offset attribute of each mapped variable (None for _fill_map dummies) *)
   p_len : Z;                     (* PdoMap.length *)
   p_dlen : Z;                    (* len(PdoMap.data) *)
   p_subs : list Z                (* CAN ids for which on_message is subscribed on the network *)
